@@ -4,7 +4,14 @@
 * `minimizer.INTER_METHODS` (interaction type -> name of the penalty function),
 * `virtual_site_builder.VIRTUAL_SITES` ((section, function type) -> name of the constructor function),
 * the default `treshold` of `generate_templates.compute_volume`,
-* `max_opt` passed to `GenerateTemplates` by `gen_coords`.
+* `max_opt` passed to `GenerateTemplates` by `gen_coords`,
+* (block extraction) the literal interaction-type list looped over by `find_interaction_involving` and the one
+  `extract_block` makes edges from, the two type tests of `find_interaction_involving`
+  (`inter_type in ["bonds", "constraints"]` -> not a virtual site, `inter_type.split("_")[0] == "virtual"` ->
+  virtual site) evaluated on every entry of the looped list, the improper function string `"2"` of
+  `_good_impropers` and of `minimizer.compute_improper_dih`, the `vs_types` list of `minimizer.renew_vs`, the
+  default `max_count` of `_expand_inital_coords`.  A list that is no longer a literal but a (module level or
+  imported) name is read from the live module.
 """
 import ast
 from fractions import Fraction
@@ -122,7 +129,217 @@ def extract():
     if not isinstance(max_opt, int):
         raise TranslatorError("anchor not found: GenerateTemplates(max_opt=<int>) in gen_coords")
     tab["maxOpt"] = max_opt
+    extract_block_tables(tab)
     return tab
+
+
+# ----------------------------------------------------------------------------- block extraction anchors
+
+def _str_seq(node, module, what):
+    """a list/tuple of strings: the literal, or - for a Name (module constant / imported name) or any other
+    expression without free local names - the value in the live module"""
+    if isinstance(node, (ast.List, ast.Tuple)):
+        val = lit(node)
+    else:
+        names = {n.id for n in ast.walk(node) if isinstance(n, ast.Name)}
+        live = live_module(module)
+        if not names or not all(hasattr(live, n) for n in names):
+            raise TranslatorError("%s is neither a literal nor built from module-level names" % what)
+        try:
+            val = eval(compile(ast.Expression(node), "<anchor>", "eval"), dict(vars(live)))  # pylint: disable=eval-used
+        except Exception as err:  # pylint: disable=broad-except
+            raise TranslatorError("%s cannot be evaluated in the live module: %s" % (what, err))
+    if not isinstance(val, (list, tuple)) or not all(isinstance(x, str) for x in val):
+        raise TranslatorError("%s is not a sequence of strings" % what)
+    return list(val)
+
+
+def _type_loop(func, what):
+    """the first `for <name> in <sequence of strings>` of `func` (source order)"""
+    loops = [n for n in ast.walk(func) if isinstance(n, ast.For) and isinstance(n.target, ast.Name)]
+    loops.sort(key=lambda n: (n.lineno, n.col_offset))
+    return loops
+
+
+def _mentions(node, name):
+    return any(isinstance(n, ast.Name) and n.id == name for n in ast.walk(node))
+
+
+def _eval_type_test(test, var, value, module):
+    """evaluate the conjuncts of `test` that speak about the loop variable `var` only, for var = value.
+    Supported: `var in <str sequence>`, `var == "lit"`, `var.split(sep)[i] == "lit"`, `var.startswith("lit")`."""
+    conjuncts = test.values if isinstance(test, ast.BoolOp) and isinstance(test.op, ast.And) else [test]
+    mine = [c for c in conjuncts if _mentions(c, var)]
+    if not mine:
+        raise TranslatorError("branch test of find_interaction_involving does not mention the interaction type")
+    result = True
+    for conj in mine:
+        result = result and _eval_atom(conj, var, value, module)
+    return result
+
+
+def _eval_str(node, var, value):
+    if isinstance(node, ast.Name) and node.id == var:
+        return value
+    if isinstance(node, ast.Constant) and isinstance(node.value, str):
+        return node.value
+    if isinstance(node, ast.Subscript) and isinstance(node.value, ast.Call) and \
+            isinstance(node.value.func, ast.Attribute) and node.value.func.attr == "split":
+        base = _eval_str(node.value.func.value, var, value)
+        args = [lit(a) for a in node.value.args]
+        idx = lit(node.slice)
+        if not isinstance(idx, int) or not all(isinstance(a, str) for a in args):
+            raise TranslatorError("unsupported split(...)[...] in a type test")
+        parts = base.split(*args)
+        if not -len(parts) <= idx < len(parts):
+            return None
+        return parts[idx]
+    raise TranslatorError("unsupported expression in a type test: %s" % ast.dump(node)[:160])
+
+
+def _eval_atom(node, var, value, module):
+    if isinstance(node, ast.Compare) and len(node.ops) == 1:
+        op, right = node.ops[0], node.comparators[0]
+        if isinstance(op, (ast.In, ast.NotIn)):
+            seq = _str_seq(right, module, "right-hand side of `in`")
+            res = _eval_str(node.left, var, value) in seq
+            return res if isinstance(op, ast.In) else not res
+        if isinstance(op, (ast.Eq, ast.NotEq)):
+            res = _eval_str(node.left, var, value) == _eval_str(right, var, value)
+            return res if isinstance(op, ast.Eq) else not res
+    if isinstance(node, ast.Call) and isinstance(node.func, ast.Attribute) and node.func.attr == "startswith" \
+            and len(node.args) == 1:
+        return _eval_str(node.func.value, var, value).startswith(_eval_str(node.args[0], var, value))
+    raise TranslatorError("unsupported type test: %s" % ast.dump(node)[:160])
+
+
+def _return_flag(stmts):
+    """the constant first element of a `return <flag>, interaction, inter_type` directly in `stmts`"""
+    for stmt in stmts:
+        if isinstance(stmt, ast.Return) and isinstance(stmt.value, ast.Tuple) and stmt.value.elts and \
+                isinstance(stmt.value.elts[0], ast.Constant) and isinstance(stmt.value.elts[0].value, bool):
+            return stmt.value.elts[0].value
+    return None
+
+
+def _branch_chain(node, out):
+    """the if/elif chain whose bodies return (flag, …): [(test, flag)] in order"""
+    flag = _return_flag(node.body)
+    if flag is not None:
+        out.append((node.test, flag))
+    if len(node.orelse) == 1 and isinstance(node.orelse[0], ast.If):
+        _branch_chain(node.orelse[0], out)
+    return out
+
+
+def _func_string_test(func, what):
+    """the string literal S of a test `<x>.parameters[0] == S` / `params[0] == S` in `func`"""
+    found = []
+    for node in ast.walk(func):
+        if isinstance(node, ast.Compare) and len(node.ops) == 1 and isinstance(node.ops[0], ast.Eq) and \
+                isinstance(node.left, ast.Subscript) and isinstance(node.comparators[0], ast.Constant) and \
+                isinstance(node.comparators[0].value, str):
+            try:
+                idx = lit(node.left.slice)
+            except TranslatorError:
+                continue
+            if idx == 0:
+                found.append(node.comparators[0].value)
+    if len(set(found)) != 1:
+        raise TranslatorError("anchor not found: exactly one `parameters[0] == \"<function type>\"` in %s" % what)
+    return found[0]
+
+
+def extract_block_tables(tab):
+    gen = src("generate_templates.py")
+    module = "generate_templates"
+    # find_interaction_involving: the looped type list and the classification by the two tests
+    fii = find_func(gen, "find_interaction_involving")
+    loops = _type_loop(fii, "find_interaction_involving")
+    if not loops:
+        raise TranslatorError("anchor not found: `for inter_type in [...]` in find_interaction_involving")
+    outer = loops[0]
+    var = outer.target.id
+    search = _str_seq(outer.iter, module, "type list of find_interaction_involving")
+    chain = None
+    for node in ast.walk(outer):
+        if isinstance(node, ast.If) and _return_flag(node.body) is not None and _mentions(node.test, var):
+            chain = _branch_chain(node, [])
+            break
+    if not chain:
+        raise TranslatorError("anchor not found: `if … inter_type …: return <bool>, interaction, inter_type` "
+                              "in find_interaction_involving")
+    cls = []
+    for entry in search:
+        for test, flag in chain:
+            if _eval_type_test(test, var, entry, module):
+                cls.append((entry, flag))
+                break
+    tab["findSearchTypes"] = search
+    tab["findClass"] = cls
+    # extract_block: the list edges are made from
+    ext = find_func(gen, "extract_block")
+    edge_types = None
+    for loop in _type_loop(ext, "extract_block"):
+        if any(isinstance(n, ast.Attribute) and n.attr == "make_edges_from_interaction_type" for n in ast.walk(loop)):
+            edge_types = _str_seq(loop.iter, module, "type list of extract_block")
+    if edge_types is None:
+        raise TranslatorError("anchor not found: `for inter_type in [...]: block.make_edges_from_interaction_type` "
+                              "in extract_block")
+    tab["edgeTypes"] = edge_types
+    # the improper function type
+    tab["improperFunc"] = _func_string_test(find_func(gen, "_good_impropers"), "_good_impropers")
+    mini = src("minimizer.py")
+    tab["improperFuncMinimizer"] = _func_string_test(find_func(mini, "compute_improper_dih"), "compute_improper_dih")
+    # renew_vs: the virtual-site sections in construction order
+    renew = find_func(mini, "renew_vs")
+    vs_types = None
+    for loop in _type_loop(renew, "renew_vs"):
+        if any(isinstance(n, ast.Name) and n.id == "construct_vs" for n in ast.walk(loop)):
+            it = loop.iter
+            if isinstance(it, ast.Name):
+                try:
+                    it = [n for n in ast.walk(renew) if isinstance(n, ast.Assign) and
+                          any(isinstance(t, ast.Name) and t.id == loop.iter.id for t in n.targets)][0].value
+                except IndexError:
+                    it = loop.iter
+            vs_types = _str_seq(it, "minimizer", "vs_types of renew_vs")
+            break
+    if vs_types is None:
+        raise TranslatorError("anchor not found: `for vs_type in …: … construct_vs` in renew_vs")
+    tab["renewVsTypes"] = vs_types
+    max_count = lit(_default_node(find_func(gen, "_expand_inital_coords"), "max_count"))
+    if isinstance(max_count, bool) or not isinstance(max_count, int) or max_count < 0:
+        raise TranslatorError("default max_count of _expand_inital_coords is not a natural number")
+    tab["expandMaxCount"] = max_count
+    return tab
+
+
+def emit_block_tables(tab, lines):
+    def str_list(name, entries, doc):
+        lines.append("/-- %s -/" % doc)
+        lines.append("def %s : List String :=" % name)
+        lines.append("  [" + ", ".join(lstr(e) for e in entries) + "]")
+        lines.append("")
+
+    str_list("findSearchTypes", tab["findSearchTypes"],
+             "generate_templates.find_interaction_involving: the interaction types searched, in order")
+    lines.append("/-- find_interaction_involving: for every searched type the flag returned by the first branch whose type "
+                 "test holds (false = bond-like, true = virtual site) -/")
+    lines.append("def findClass : List (String × Bool) :=")
+    lines.append("  [" + ", ".join("(%s, %s)" % (lstr(k), "true" if v else "false") for k, v in tab["findClass"]) + "]")
+    lines.append("")
+    str_list("edgeTypes", tab["edgeTypes"], "generate_templates.extract_block: the interaction types edges are made from")
+    lines.append("/-- the function type `_good_impropers` tests (`improper.parameters[0] == …`) -/")
+    lines.append("def improperFunc : String := %s" % lstr(tab["improperFunc"]))
+    lines.append("")
+    lines.append("/-- the function type `minimizer.compute_improper_dih` penalises -/")
+    lines.append("def improperFuncMinimizer : String := %s" % lstr(tab["improperFuncMinimizer"]))
+    lines.append("")
+    str_list("renewVsTypes", tab["renewVsTypes"], "minimizer.renew_vs: virtual-site sections in construction order")
+    lines.append("/-- default `max_count` of generate_templates._expand_inital_coords -/")
+    lines.append("def expandMaxCount : Nat := %d" % tab["expandMaxCount"])
+    lines.append("")
 
 
 def _rat(frac):
@@ -158,6 +375,7 @@ def emit(tab):
     lines.append("/-- `max_opt` handed to GenerateTemplates by gen_coords -/")
     lines.append("def maxOpt : Nat := %d" % tab["maxOpt"])
     lines.append("")
+    emit_block_tables(tab, lines)
     lines.append("end PolyplyVerif.TemplateTables")
     return "\n".join(lines) + "\n"
 
@@ -177,4 +395,65 @@ def validate_live(tab):
     tol = inspect.signature(minimizer.optimize_geometry).parameters["tolerance"].default
     if [(k, Fraction(repr(v))) for k, v in tol.items()] != tab["tolerance"]:
         problems.append("default tolerance of optimize_geometry differs between ast and live module")
+    return problems
+
+
+# ----------------------------------------------------------------------------- live validation of the block anchors
+
+_validate_live_tables = validate_live
+
+
+def validate_live(tab):  # pylint: disable=function-redefined
+    """the tables above, plus: the classification read from the two type tests of find_interaction_involving is
+    what the live function returns on a one-interaction probe block per searched type; a type outside the list is
+    not found; the improper function string is the one _good_impropers reacts to; default max_count"""
+    problems = _validate_live_tables(tab)
+    try:
+        import inspect
+        import numpy as np
+        import vermouth
+        from vermouth.molecule import Interaction
+        from polyply.src import generate_templates as gt
+        from polyply.src import minimizer
+
+        def probe(inter_type):
+            block = vermouth.molecule.Block()
+            for name in ("A", "B", "C"):
+                block.add_node(name, atomname=name, resname="X")
+            block.interactions[inter_type] = [Interaction(atoms=("A", "B", "C"), parameters=["1"], meta={})]
+            try:
+                flag, _, found = gt.find_interaction_involving(block, "A", "B")
+                return (bool(flag), found)
+            except Exception:  # pylint: disable=broad-except
+                return None
+        cls = dict(tab["findClass"])
+        for inter_type in tab["findSearchTypes"]:
+            want = (cls[inter_type], inter_type) if inter_type in cls else None
+            if probe(inter_type) != want:
+                problems.append("find_interaction_involving: live result for %s differs from the translated tests" % inter_type)
+        for inter_type in ("angles", "dihedrals", "virtual_sites", "pairs"):
+            if inter_type not in tab["findSearchTypes"] and probe(inter_type) is not None:
+                problems.append("find_interaction_involving finds %s, which is not in the translated type list" % inter_type)
+        # _good_impropers reacts to the translated function string only (wrong-handed quadruple, reference +35)
+        coords = {"A": np.array([1.0, 0, 0]), "B": np.array([0.0, 0, 0]), "C": np.array([0, 1.0, 0]),
+                  "D": np.array([-0.5, 1.0, 0.5])}
+        for func in sorted({"1", "2", "4", "9", tab["improperFunc"]}):
+            block = vermouth.molecule.Block()
+            for name in coords:
+                block.add_node(name, atomname=name, resname="X")
+            block.interactions["dihedrals"] = [Interaction(atoms=("A", "B", "C", "D"), parameters=[func, "35", "10"], meta={})]
+            both = [bool(gt._good_impropers(coords, block))]  # pylint: disable=protected-access
+            block.interactions["dihedrals"] = [Interaction(atoms=("A", "B", "C", "D"), parameters=[func, "-35", "10"], meta={})]
+            both.append(bool(gt._good_impropers(coords, block)))  # pylint: disable=protected-access
+            reacts = not all(both)
+            if reacts != (func == tab["improperFunc"]):
+                problems.append("_good_impropers: live reaction to function type %s differs from the translated string" % func)
+            pen = minimizer.compute_improper_dih([func, "35", "10"], [coords[k] for k in "ABCD"])
+            if (float(pen) != 0.0) != (func == tab["improperFuncMinimizer"]):
+                problems.append("compute_improper_dih: live reaction to function type %s differs from the translated string" % func)
+        default = inspect.signature(gt._expand_inital_coords).parameters["max_count"].default  # pylint: disable=protected-access
+        if default != tab["expandMaxCount"]:
+            problems.append("default max_count of _expand_inital_coords differs between ast and live module")
+    except Exception as err:  # pylint: disable=broad-except
+        problems.append("live validation of the block anchors failed: %s: %s" % (type(err).__name__, err))
     return problems
